@@ -54,13 +54,13 @@ def locked : PC → Bool
 
 /-- pcs at which the thread does not know yet that a bootstrap has started -/
 def early : PC → Bool
-  | .start | .lookup | .acqB | .recheck => true
+  | .start | .superNew | .lookup | .acqB | .recheck => true
   | _ => false
 
 /-- the thread is past the lock of the `__new__` wrapper (or inside it) -/
 def settled (tr : Trigger) : PC → Bool
-  | .checkNew | .swapNew | .relN => true
-  | .observe | .done => tr == .inst
+  | .checkNew | .swapNew | .relN | .dispatch => true
+  | .observe | .done => tr.isInst
   | _ => false
 
 theorem isBoot_locked {p : PC} (h : isBoot p = true) : locked p = true := by
@@ -71,6 +71,43 @@ theorem isBoot_locked {p : PC} (h : isBoot p = true) : locked p = true := by
 @[simp] theorem setT_cls (c : Config) (t : Nat) (st : TState) : (c.setT t st).cls = c.cls := rfl
 @[simp] theorem setT_lock (c : Config) (t : Nat) (st : TState) : (c.setT t st).lock = c.lock := rfl
 @[simp] theorem setT_boots (c : Config) (t : Nat) (st : TState) : (c.setT t st).boots = c.boots := rfl
+@[simp] theorem setT_args (c : Config) (t : Nat) (st : TState) : (c.setT t st).args = c.args := rfl
+@[simp] theorem setT_news (c : Config) (t : Nat) (st : TState) : (c.setT t st).news = c.news := rfl
+@[simp] theorem log_threads (c : Config) (t : Nat) (x : NewCall) : (c.log t x).threads = c.threads := rfl
+@[simp] theorem log_cls (c : Config) (t : Nat) (x : NewCall) : (c.log t x).cls = c.cls := rfl
+@[simp] theorem log_lock (c : Config) (t : Nat) (x : NewCall) : (c.log t x).lock = c.lock := rfl
+@[simp] theorem log_boots (c : Config) (t : Nat) (x : NewCall) : (c.log t x).boots = c.boots := rfl
+@[simp] theorem log_args (c : Config) (t : Nat) (x : NewCall) : (c.log t x).args = c.args := rfl
+@[simp] theorem log_news (c : Config) (t : Nat) (x : NewCall) (i : Nat) :
+    (c.log t x).news i = if i = t then c.news t ++ [x] else c.news i := rfl
+@[simp] theorem setArgs_threads (c : Config) (t : Nat) (a : Bool) : (c.setArgs t a).threads = c.threads := rfl
+@[simp] theorem setArgs_cls (c : Config) (t : Nat) (a : Bool) : (c.setArgs t a).cls = c.cls := rfl
+@[simp] theorem setArgs_lock (c : Config) (t : Nat) (a : Bool) : (c.setArgs t a).lock = c.lock := rfl
+@[simp] theorem setArgs_boots (c : Config) (t : Nat) (a : Bool) : (c.setArgs t a).boots = c.boots := rfl
+@[simp] theorem setArgs_news (c : Config) (t : Nat) (a : Bool) : (c.setArgs t a).news = c.news := rfl
+@[simp] theorem setArgs_args (c : Config) (t : Nat) (a : Bool) (i : Nat) :
+    (c.setArgs t a).args i = if i = t then a else c.args i := rfl
+
+@[simp] theorem logNew_threads (c : Config) (t : Nat) (n : NewState) : (c.logNew t n).threads = c.threads := by
+  unfold Config.logNew; split <;> rfl
+@[simp] theorem logNew_cls (c : Config) (t : Nat) (n : NewState) : (c.logNew t n).cls = c.cls := by
+  unfold Config.logNew; split <;> rfl
+@[simp] theorem logNew_lock (c : Config) (t : Nat) (n : NewState) : (c.logNew t n).lock = c.lock := by
+  unfold Config.logNew; split <;> rfl
+@[simp] theorem logNew_boots (c : Config) (t : Nat) (n : NewState) : (c.logNew t n).boots = c.boots := by
+  unfold Config.logNew; split <;> rfl
+@[simp] theorem logNew_args (c : Config) (t : Nat) (n : NewState) : (c.logNew t n).args = c.args := by
+  unfold Config.logNew; split <;> rfl
+
+theorem finalNew_ne_wrapper (b : Body) : finalNew b ≠ .wrapper := by
+  unfold finalNew; split
+  · simp
+  · split <;> simp
+
+theorem finalNew_fn (b : Body) : (finalNew b).fn = some (finalFn b) := by
+  unfold finalNew finalFn; split
+  · rfl
+  · split <;> rfl
 
 /-! ### the invariant -/
 
@@ -83,15 +120,33 @@ structure Inv (b : Body) (trig : Nat → Trigger) (c : Config) : Prop where
   bootsOne : ∀ i, isBoot (c.threads i).pc = true → c.boots = 1
   late     : ∀ i, early (c.threads i).pc = false → c.boots = 1
   newInv   : c.cls.new = .wrapper ∨ c.cls.new = finalNew b
-  swapped  : ∀ i, ((c.threads i).pc = .relN ∨ (trig i = .inst ∧ ((c.threads i).pc = .observe ∨ (c.threads i).pc = .done))) →
+  swapped  : ∀ i, ((c.threads i).pc = .relN ∨ (c.threads i).pc = .dispatch ∨
+        ((trig i).isInst = true ∧ ((c.threads i).pc = .observe ∨ (c.threads i).pc = .done))) →
       c.cls.new = finalNew b
   noBoot   : ∀ i, settled (trig i) (c.threads i).pc = true → ∀ j, isBoot (c.threads j).pc = false
-  obsInst  : ∀ i o, trig i = .inst → (c.threads i).obs = some o → o = eagerObs b
+  obsInst  : ∀ i o, (trig i).isInst = true → (c.threads i).obs = some o → o = eagerObs b
   doneObs  : ∀ i, (c.threads i).pc = .done → (c.threads i).obs.isSome = true
   newDone  : c.cls.new ≠ .wrapper → c.boots = 1 ∧ ∀ j, isBoot (c.threads j).pc = false
 
 theorem inv_init (b : Body) (trig : Nat → Trigger) : Inv b trig (Config.init b) := by
   refine ⟨?_, ?_, ?_, ?_, ?_, ?_, ?_, ?_, ?_, ?_, ?_⟩ <;> simp [Config.init, TState.init, locked, isBoot, early, settled, untouched]
+
+/-- the invariant does not talk about the per-thread `__new__` log / argument flag -/
+theorem inv_ghost {b : Body} {trig : Nat → Trigger} {c : Config} (h : Inv b trig c)
+    (a : Nat → Bool) (n : Nat → List NewCall) : Inv b trig { c with args := a, news := n } :=
+  ⟨h.lockPc, h.bootProg, h.phase, h.bootsOne, h.late, h.newInv, h.swapped, h.noBoot, h.obsInst, h.doneObs, h.newDone⟩
+
+theorem inv_log {b : Body} {trig : Nat → Trigger} {c : Config} (h : Inv b trig c) (t : Nat) (x : NewCall) :
+    Inv b trig (c.log t x) := inv_ghost h _ _
+
+theorem inv_setArgs {b : Body} {trig : Nat → Trigger} {c : Config} (h : Inv b trig c) (t : Nat) (a : Bool) :
+    Inv b trig (c.setArgs t a) := inv_ghost h _ _
+
+theorem inv_logNew {b : Body} {trig : Nat → Trigger} {c : Config} (h : Inv b trig c) (t : Nat) (n : NewState) :
+    Inv b trig (c.logNew t n) := by
+  unfold Config.logNew; split
+  · exact h
+  · exact inv_log h t _
 
 /-- uniqueness of the lock holder -/
 theorem Inv.holder {b : Body} {trig : Nat → Trigger} {c : Config} (h : Inv b trig c) {i j : Nat}
@@ -146,7 +201,8 @@ theorem inv_pcOnly {b : Body} {trig : Nat → Trigger} {c : Config} (h : Inv b t
     (hlock : locked pc' = locked (c.threads t).pc)
     (hb0 : isBoot (c.threads t).pc = false) (hb1 : isBoot pc' = false)
     (hlate : early pc' = false → c.boots = 1)
-    (hswap : (pc' = .relN ∨ (trig t = .inst ∧ (pc' = .observe ∨ pc' = .done))) → c.cls.new = finalNew b)
+    (hswap : (pc' = .relN ∨ pc' = .dispatch ∨ ((trig t).isInst = true ∧ (pc' = .observe ∨ pc' = .done))) →
+      c.cls.new = finalNew b)
     (hset : settled (trig t) pc' = true → ∀ j, isBoot (c.threads j).pc = false)
     (hdone : pc' ≠ .done) :
     Inv b trig (c.setT t { (c.threads t) with pc := pc' }) := by
@@ -207,7 +263,7 @@ theorem inv_acquire {b : Body} {trig : Nat → Trigger} {c : Config} (h : Inv b 
     (hfree : c.lock = none)
     (hl0 : locked (c.threads t).pc = false) (hl1 : locked pc' = true) (hb1 : isBoot pc' = false)
     (hlate : early pc' = false → c.boots = 1)
-    (hswap : pc' ≠ .relN ∧ pc' ≠ .observe ∧ pc' ≠ .done) :
+    (hswap : pc' ≠ .relN ∧ pc' ≠ .observe ∧ pc' ≠ .done ∧ pc' ≠ .dispatch) :
     Inv b trig { c.setT t { (c.threads t) with pc := pc' } with lock := some t } := by
   have nolock := h.free_noLocked hfree
   have noboot : ∀ j, isBoot (c.threads j).pc = false := by
@@ -243,10 +299,11 @@ theorem inv_acquire {b : Body} {trig : Nat → Trigger} {c : Config} (h : Inv b 
   · intro i hsi
     by_cases hi : i = t
     · subst hi; simp at hsi
-      rcases hsi with h1 | ⟨_, h2 | h3⟩
+      rcases hsi with h1 | h1 | ⟨_, h2 | h3⟩
       · exact absurd h1 hswap.1
+      · exact absurd h1 hswap.2.2.2
       · exact absurd h2 hswap.2.1
-      · exact absurd h3 hswap.2.2
+      · exact absurd h3 hswap.2.2.1
     · simp [hi] at hsi; exact h.swapped i hsi
   · intro i _ j
     by_cases hj : j = t
@@ -258,7 +315,7 @@ theorem inv_acquire {b : Body} {trig : Nat → Trigger} {c : Config} (h : Inv b 
     · simp [hi] at hoi; exact h.obsInst i o hti hoi
   · intro i hdi
     by_cases hi : i = t
-    · subst hi; simp at hdi; exact absurd hdi hswap.2.2
+    · subst hi; simp at hdi; exact absurd hdi hswap.2.2.1
     · simp [hi] at hdi ⊢; exact h.doneObs i hdi
 
 /-- leaving a `with thread_lock:` block. -/
@@ -266,7 +323,7 @@ theorem inv_release {b : Body} {trig : Nat → Trigger} {c : Config} (h : Inv b 
     (hl0 : locked (c.threads t).pc = true) (hb0 : isBoot (c.threads t).pc = false)
     (hl1 : locked pc' = false)
     (hlate : early pc' = false → c.boots = 1)
-    (hswap : (trig t = .inst ∧ (pc' = .observe ∨ pc' = .done)) → c.cls.new = finalNew b)
+    (hswap : (pc' = .dispatch ∨ ((trig t).isInst = true ∧ (pc' = .observe ∨ pc' = .done))) → c.cls.new = finalNew b)
     (hset : settled (trig t) pc' = true → ∀ j, isBoot (c.threads j).pc = false)
     (hdone : pc' ≠ .done) :
     Inv b trig { c.setT t { (c.threads t) with pc := pc' } with lock := none } := by
@@ -455,7 +512,8 @@ theorem inv_bootStep {b : Body} {trig : Nat → Trigger} {c : Config} (h : Inv b
   · intro i hsi
     by_cases hi : i = t
     · subst hi; simp at hsi
-      rcases hsi with h1 | ⟨_, h2 | h3⟩
+      rcases hsi with h1 | h1 | ⟨_, h2 | h3⟩
+      · split at h1 <;> cases h1
       · split at h1 <;> cases h1
       · split at h2 <;> cases h2
       · split at h3 <;> cases h3
@@ -521,7 +579,7 @@ theorem inv_observe {b : Body} {trig : Nat → Trigger} {c : Config} (h : Inv b 
   · intro i hsi
     by_cases hi : i = t
     · subst hi; simp at hsi
-      exact h.swapped i (Or.inr ⟨hsi, Or.inl hpc⟩)
+      exact h.swapped i (Or.inr (Or.inr ⟨hsi, Or.inl hpc⟩))
     · simp [hi] at hsi; exact h.swapped i hsi
   · intro i hsi j
     have key : ∀ j, isBoot (c.threads j).pc = false := by
@@ -538,7 +596,7 @@ theorem inv_observe {b : Body} {trig : Nat → Trigger} {c : Config} (h : Inv b 
       simp at hoi
       subst hoi
       have hnb := h.noBoot i (by rw [hpc]; simp [settled, hti])
-      have hnew := h.swapped i (Or.inr ⟨hti, Or.inl hpc⟩)
+      have hnew := h.swapped i (Or.inr (Or.inr ⟨hti, Or.inl hpc⟩))
       have hcore : c.cls.core = eagerCore b := by
         rcases h.phase hnb with ⟨h0, _⟩ | ⟨_, he⟩
         · omega
@@ -554,7 +612,7 @@ theorem inv_observe {b : Body} {trig : Nat → Trigger} {c : Config} (h : Inv b 
 theorem inv_startStep {b : Body} {trig : Nat → Trigger} {c : Config} (h : Inv b trig c) (t : Nat)
     (hpc : (c.threads t).pc = .start ∨ (c.threads t).pc = .lookup) (found : Bool) (pcF : PC)
     (hfound : found = true → c.cls.core ≠ untouchedCore b)
-    (hpcF : pcF = .acqN ∨ (pcF = .observe ∧ trig t ≠ .inst)) :
+    (hpcF : pcF = .acqN ∨ (pcF = .observe ∧ (trig t).isInst = false)) :
     Inv b trig (c.setT t { (c.threads t) with pc := if found then pcF else PC.acqB }) := by
   have hcases : (if found then pcF else PC.acqB) = .acqB ∨ (found = true ∧ (if found then pcF else PC.acqB) = pcF) := by
     cases found <;> simp
@@ -570,20 +628,21 @@ theorem inv_startStep {b : Body} {trig : Nat → Trigger} {c : Config} (h : Inv 
     · exact h.touched_boots (hfound hf)
   · intro hsw
     rcases hcases with h1 | ⟨_, h2⟩
-    · rw [h1] at hsw; rcases hsw with h' | ⟨_, h' | h'⟩ <;> cases h'
+    · rw [h1] at hsw; rcases hsw with h' | h' | ⟨_, h' | h'⟩ <;> cases h'
     · rw [h2] at hsw
       rcases hpcF with h3 | ⟨h3, hne⟩
-      · rw [h3] at hsw; rcases hsw with h' | ⟨_, h' | h'⟩ <;> cases h'
-      · rcases hsw with h' | ⟨hti, _⟩
+      · rw [h3] at hsw; rcases hsw with h' | h' | ⟨_, h' | h'⟩ <;> cases h'
+      · rcases hsw with h' | h' | ⟨hti, _⟩
         · rw [h3] at h'; cases h'
-        · exact absurd hti hne
+        · rw [h3] at h'; cases h'
+        · rw [hne] at hti; cases hti
   · intro hset
     rcases hcases with h1 | ⟨_, h2⟩
     · rw [h1] at hset; simp [settled] at hset
     · rw [h2] at hset
       rcases hpcF with h3 | ⟨h3, hne⟩
       · rw [h3] at hset; simp [settled] at hset
-      · rw [h3] at hset; simp [settled] at hset; exact absurd hset hne
+      · rw [h3] at hset; simp [settled, hne] at hset
   · rcases hcases with h1 | ⟨_, h2⟩
     · rw [h1]; simp
     · rw [h2]; rcases hpcF with h3 | ⟨h3, _⟩ <;> rw [h3] <;> simp
@@ -601,6 +660,7 @@ theorem inv_step' {b : Body} {trig : Nat → Trigger} {c c' : Config} {l : Label
     simp only [hpc] at hs
     cases htr : trig t <;> simp only [htr] at hs <;> cases hs
     · -- `Cls(...)`: the wrapper, or the real `__new__` once the wrapper removed itself
+      apply inv_logNew
       by_cases hw : c.cls.new = .wrapper
       · simp only [hw, if_true]
         exact inv_pcOnly h t .lookup (by rw [hpc]; rfl) (by rw [hpc]; rfl) rfl (by simp [early]) (by simp)
@@ -614,9 +674,31 @@ theorem inv_step' {b : Body} {trig : Nat → Trigger} {c c' : Config} {l : Label
         exact inv_pcOnly h t .observe (by rw [hpc]; rfl) (by rw [hpc]; rfl) rfl (fun _ => hb) (fun _ => hfin)
           (fun _ => hnb) (by simp)
     · exact inv_startStep h t (Or.inl hpc) c.cls.core.mdata.isSome .observe
-        (fun hf hu => by rw [hu] at hf; simp [untouchedCore] at hf) (Or.inr ⟨rfl, by simp [htr]⟩)
+        (fun hf hu => by rw [hu] at hf; simp [untouchedCore] at hf) (Or.inr ⟨rfl, by rw [htr]; rfl⟩)
     · exact inv_startStep h t (Or.inl hpc) c.cls.core.fields.isSome .observe
-        (fun hf hu => by rw [hu] at hf; simp [untouchedCore] at hf) (Or.inr ⟨rfl, by simp [htr]⟩)
+        (fun hf hu => by rw [hu] at hf; simp [untouchedCore] at hf) (Or.inr ⟨rfl, by rw [htr]; rfl⟩)
+    · -- `Sub(...)`: the subclass' own `__new__` starts
+      apply inv_log
+      exact inv_pcOnly h t .superNew (by rw [hpc]; rfl) (by rw [hpc]; rfl) rfl (by simp [early]) (by simp)
+        (by simp [settled]) (by simp)
+  | superNew =>
+    simp only [hpc] at hs
+    cases hs
+    apply inv_logNew
+    have h2 := inv_setArgs h t (c.args t && (trig t).fwd)
+    have hpc2 : ((c.setArgs t (c.args t && (trig t).fwd)).threads t).pc = .superNew := hpc
+    by_cases hw : c.cls.new = .wrapper
+    · simp only [hw, if_true]
+      exact inv_pcOnly h2 t .lookup (by rw [hpc2]; rfl) (by rw [hpc2]; rfl) rfl (by simp [early]) (by simp)
+        (by simp [settled]) (by simp)
+    · simp only [hw, if_false]
+      have hfin : c.cls.new = finalNew b := by
+        rcases h.newInv with h1 | h1
+        · exact absurd h1 hw
+        · exact h1
+      obtain ⟨hb, hnb⟩ := h.newDone hw
+      exact inv_pcOnly h2 t .observe (by rw [hpc2]; rfl) (by rw [hpc2]; rfl) rfl (fun _ => hb) (fun _ => hfin)
+        (fun _ => hnb) (by simp)
   | lookup =>
     simp only [hpc] at hs
     cases hs
@@ -662,12 +744,13 @@ theorem inv_step' {b : Body} {trig : Nat → Trigger} {c c' : Config} {l : Label
     · split <;> rfl
     · intro _; exact hboots
     · intro hsw
-      rcases hsw with h1 | ⟨hti, h2 | h3⟩
+      rcases hsw with h1 | h1 | ⟨hti, h2 | h3⟩
       · split at h1 <;> cases h1
-      · rw [hti] at h2; cases h2
+      · split at h1 <;> cases h1
+      · simp [hti] at h2
       · split at h3 <;> cases h3
     · intro hset
-      cases htr : trig t <;> simp [htr, settled] at hset
+      cases hti : (trig t).isInst <;> simp [hti, settled] at hset
     · split <;> simp
     · split <;> rw [hpc] <;> rfl
   | acqN =>
@@ -687,13 +770,14 @@ theorem inv_step' {b : Body} {trig : Nat → Trigger} {c c' : Config} {l : Label
     · split <;> rfl
     · intro _; exact h.late t (by rw [hpc]; rfl)
     · intro hsw
-      rcases hsw with h1 | ⟨_, h2 | h3⟩
+      rcases hsw with h1 | h1 | ⟨_, h2 | h3⟩
       · split at h1
         · cases h1
         · rename_i hne
           rcases h.newInv with hw | hf
           · exact absurd hw hne
           · exact hf
+      · split at h1 <;> cases h1
       · split at h2 <;> cases h2
       · split at h3 <;> cases h3
     · intro _; exact hnb
@@ -706,9 +790,18 @@ theorem inv_step' {b : Body} {trig : Nat → Trigger} {c c' : Config} {l : Label
   | relN =>
     simp only [hpc] at hs
     cases hs
-    exact inv_release h t .observe (by rw [hpc]; rfl) (by rw [hpc]; rfl) rfl
+    exact inv_release h t .dispatch (by rw [hpc]; rfl) (by rw [hpc]; rfl) rfl
       (fun _ => h.late t (by rw [hpc]; rfl)) (fun _ => h.swapped t (Or.inl hpc))
       (fun _ => h.noBoot t (by rw [hpc]; rfl)) (by simp)
+  | dispatch =>
+    simp only [hpc] at hs
+    cases hs
+    apply inv_logNew
+    have hfin : c.cls.new = finalNew b := h.swapped t (Or.inr (Or.inl hpc))
+    have hw : c.cls.new ≠ .wrapper := by rw [hfin]; exact finalNew_ne_wrapper b
+    simp only [hw, if_false]
+    exact inv_pcOnly h t .observe (by rw [hpc]; rfl) (by rw [hpc]; rfl) rfl
+      (fun _ => h.late t (by rw [hpc]; rfl)) (fun _ => hfin) (fun _ => h.noBoot t (by rw [hpc]; rfl)) (by simp)
   | observe =>
     simp only [hpc] at hs
     cases hs
@@ -723,7 +816,10 @@ theorem step_others {b : Body} {trig : Nat → Trigger} {c c' : Config} {l : Lab
   intro j hj
   unfold step at hs
   cases hpc : (c.threads t).pc <;> simp only [hpc] at hs
-  case start => cases htr : trig t <;> simp only [htr] at hs <;> cases hs <;> simp [hj]
+  case start =>
+    cases htr : trig t <;> simp only [htr] at hs <;> cases hs <;> (try unfold Config.logNew) <;> (try split) <;> simp [hj]
+  case superNew => cases hs; unfold Config.logNew; split <;> simp [hj]
+  case dispatch => cases hs; unfold Config.logNew; split <;> simp [hj]
   case lookup => cases hs; simp [hj]
   case acqB => split at hs <;> cases hs; simp [hj]
   case recheck => split at hs <;> cases hs <;> simp [hj]
@@ -740,7 +836,8 @@ theorem step_others {b : Body} {trig : Nat → Trigger} {c c' : Config} {l : Lab
 /-! ### a thread running alone always terminates -/
 
 def rank (b : Body) : PC → Nat
-  | .start => (bootActs b).length + 12
+  | .start => (bootActs b).length + 14
+  | .superNew => (bootActs b).length + 13
   | .lookup => (bootActs b).length + 11
   | .acqB => (bootActs b).length + 10
   | .recheck => (bootActs b).length + 9
@@ -751,6 +848,7 @@ def rank (b : Body) : PC → Nat
   | .checkNew => 5
   | .swapNew => 4
   | .relN => 3
+  | .dispatch => 2
   | .observe => 1
   | .done => 0
 
@@ -774,9 +872,19 @@ theorem step_alone {b : Body} {trig : Nat → Trigger} {c : Config} (h : Inv b t
   | start =>
     simp only [step, hpc]
     cases htr : trig t <;> simp only [htr]
-    all_goals refine ⟨_, _, rfl, ?_, keep _ _ rfl⟩
+    all_goals refine ⟨_, _, rfl, ?_, keep _ _ (by first | rfl | (simp only [logNew_threads, log_threads, setArgs_threads]; rfl))⟩
     all_goals simp
-    all_goals split <;> simp [rank] <;> omega
+    all_goals first | (split <;> simp [rank] <;> omega) | (simp [rank])
+  | superNew =>
+    simp only [step, hpc]
+    refine ⟨_, _, rfl, ?_, keep _ _ (by first | rfl | (simp only [logNew_threads, log_threads, setArgs_threads]; rfl))⟩
+    simp
+    split <;> simp [rank] <;> omega
+  | dispatch =>
+    have hfin : c.cls.new = finalNew b := h.swapped t (Or.inr (Or.inl hpc))
+    have hw : c.cls.new ≠ .wrapper := by rw [hfin]; exact finalNew_ne_wrapper b
+    simp only [step, hpc, hw, if_false]
+    exact ⟨_, _, rfl, by simp [rank], keep _ _ (by first | rfl | (simp only [logNew_threads, log_threads, setArgs_threads]; rfl))⟩
   | lookup =>
     simp only [step, hpc]
     refine ⟨_, _, rfl, ?_, keep _ _ rfl⟩
@@ -837,5 +945,257 @@ theorem run_alone {b : Body} {trig : Nat → Trigger} (t : Nat) :
     · obtain ⟨c', l, hs, hlt, ho'⟩ := step_alone h t ho hd
       simp only [List.replicate_succ, runSched, hs]
       exact ih c' (inv_step' h t hs) ho' (by omega)
+
+/-! ### which `__new__` bodies run (ghost log) -/
+
+/-- a `__new__` of the decorated class has run for this thread's construction -/
+def past : PC → Bool
+  | .observe | .done => true
+  | _ => false
+
+/-- pcs that only a constructing program reaches (inside a `__new__`) -/
+def instOnly : PC → Bool
+  | .superNew | .lookup | .acqN | .checkNew | .swapNew | .relN | .dispatch => true
+  | _ => false
+
+/-- the argument flag of a thread's innermost `__new__` frame, as a function of where it is -/
+def expArgs (tr : Trigger) : PC → Bool
+  | .start | .superNew => true
+  | _ => tr.fwd
+
+/-- the log of a thread, as a function of where it is -/
+def expNews (b : Body) (tr : Trigger) (pc : PC) : List NewCall :=
+  match tr with
+  | .inst => if past pc = true then [⟨finalFn b, true⟩] else []
+  | .instSub fwd => if pc = .start then [] else ⟨.sub, true⟩ :: (if past pc = true then [⟨finalFn b, fwd⟩] else [])
+  | _ => []
+
+structure LogInv (b : Body) (trig : Nat → Trigger) (c : Config) : Prop where
+  news : ∀ i, c.news i = expNews b (trig i) (c.threads i).pc
+  args : ∀ i, c.args i = expArgs (trig i) (c.threads i).pc
+  prog : ∀ i, instOnly (c.threads i).pc = true → (trig i).isInst = true
+  subp : ∀ i, (c.threads i).pc = .superNew → ∃ f, trig i = .instSub f
+
+theorem logInv_init (b : Body) (trig : Nat → Trigger) : LogInv b trig (Config.init b) := by
+  constructor <;> intro i <;> simp [Config.init, TState.init, expArgs, expNews, past, instOnly]
+  cases trig i <;> simp
+
+theorem logNew_news (c : Config) (t : Nat) (n : NewState) (i : Nat) :
+    (c.logNew t n).news i =
+      if i = t then (match n.fn with | none => c.news t | some f => c.news t ++ [⟨f, c.args t⟩]) else c.news i := by
+  unfold Config.logNew
+  split <;> rename_i hn <;> simp [hn]
+  intro h; rw [h]
+
+/-- a step that moves only thread `t`'s pc, between two pcs at which the log and the flag are the same -/
+theorem logInv_pcOnly {b : Body} {trig : Nat → Trigger} {c c' : Config} (hl : LogInv b trig c) (t : Nat) (st : TState)
+    (hth : c'.threads = (c.setT t st).threads) (hn : c'.news = c.news) (ha : c'.args = c.args)
+    (hN : expNews b (trig t) st.pc = expNews b (trig t) (c.threads t).pc)
+    (hA : expArgs (trig t) st.pc = expArgs (trig t) (c.threads t).pc)
+    (hP : instOnly st.pc = true → (trig t).isInst = true) (hS : st.pc ≠ .superNew) : LogInv b trig c' := by
+  constructor <;> intro i
+  · rw [hn, hth, hl.news i]
+    by_cases hi : i = t
+    · subst hi; simp [hN]
+    · simp [hi]
+  · rw [ha, hth, hl.args i]
+    by_cases hi : i = t
+    · subst hi; simp [hA]
+    · simp [hi]
+  · rw [hth]
+    by_cases hi : i = t
+    · subst hi; simpa using hP
+    · simp [hi]; exact hl.prog i
+  · rw [hth]
+    by_cases hi : i = t
+    · subst hi; simp; intro h0; exact absurd h0 hS
+    · intro h0; apply hl.subp i; simpa [hi] using h0
+
+theorem expNews_mid (b : Body) (tr : Trigger) {p q : PC} (hp : past p = false) (hq : past q = false)
+    (hp' : p ≠ .start) (hq' : q ≠ .start) : expNews b tr p = expNews b tr q := by
+  cases tr <;> simp [expNews, hp, hq, hp', hq']
+
+theorem expArgs_mid (tr : Trigger) {p q : PC} (hp : p ≠ .start ∧ p ≠ .superNew) (hq : q ≠ .start ∧ q ≠ .superNew) :
+    expArgs tr p = expArgs tr q := by
+  have : ∀ r : PC, r ≠ .start ∧ r ≠ .superNew → expArgs tr r = tr.fwd := by
+    intro r hr; cases r <;> simp [expArgs] at hr ⊢
+  rw [this p hp, this q hq]
+
+/-- the step that calls what is in the `__new__` slot of the decorated class: the wrapper
+(the log does not change, the thread continues at `lookup`) or the final `__new__` (its body
+is logged with the current flag, the thread is `past`) -/
+theorem logInv_callNew {b : Body} {trig : Nat → Trigger} {c c1 : Config} (h : Inv b trig c) (hl : LogInv b trig c)
+    (t : Nat) (st : TState)
+    (h1t : c1.threads = c.threads) (h1n : c1.news = c.news)
+    (h1a : c1.args t = (trig t).fwd) (h1o : ∀ i, i ≠ t → c1.args i = c.args i)
+    (hpc : st.pc = if c.cls.new = .wrapper then PC.lookup else PC.observe)
+    (hnow : (c.threads t).pc ≠ .done ∧ (c.threads t).pc ≠ .observe)
+    (hstart : (c.threads t).pc = .start → trig t = .inst)
+    (hinst : (trig t).isInst = true) :
+    LogInv b trig ((c1.setT t st).logNew t c.cls.new) := by
+  have hpast : past (c.threads t).pc = false := by
+    cases hp : (c.threads t).pc <;> simp [past] <;> simp [hp] at hnow
+  have hnews := hl.news t
+  have pl : past PC.lookup = false := rfl
+  have po : past PC.observe = true := rfl
+  have hpc' : st.pc = .lookup ∨ st.pc = .observe := by rw [hpc]; split <;> simp
+  constructor <;> intro i
+  · rw [logNew_news]
+    by_cases hi : i = t
+    · subst hi
+      simp only [if_true, setT_news, setT_args, logNew_threads, setT_threads, h1n, h1a]
+      rcases h.newInv with hw | hf
+      · have hlk : st.pc = .lookup := by rw [hpc, hw]; rfl
+        rw [hw, hlk, hnews]
+        simp only [NewState.fn]
+        cases htr : trig i with
+        | instSub f =>
+          have : (c.threads i).pc ≠ .start := fun h0 => by have := hstart h0; rw [htr] at this; cases this
+          simp [expNews, hpast, pl, this]
+        | _ => simp [expNews, hpast, pl]
+      · have hob : st.pc = .observe := by rw [hpc, hf]; simp [finalNew_ne_wrapper]
+        rw [hf, finalNew_fn, hob, hnews]
+        cases htr : trig i with
+        | instSub f =>
+          have : (c.threads i).pc ≠ .start := fun h0 => by have := hstart h0; rw [htr] at this; cases this
+          simp [expNews, hpast, po, this, htr, Trigger.fwd]
+        | inst => simp [expNews, hpast, po, htr, Trigger.fwd]
+        | mdata => rw [htr] at hinst; cases hinst
+        | fields => rw [htr] at hinst; cases hinst
+    · simp [hi, h1n, h1t]; exact hl.news i
+  · by_cases hi : i = t
+    · subst hi
+      simp only [logNew_args, setT_args, if_true, logNew_threads, setT_threads, h1a]
+      rcases hpc' with h1 | h1 <;> rw [h1] <;> rfl
+    · simp [hi, h1o i hi, h1t]; exact hl.args i
+  · by_cases hi : i = t
+    · subst hi; intro _; exact hinst
+    · simp [hi, h1t]; exact hl.prog i
+  · by_cases hi : i = t
+    · subst hi; simp; intro h0; rcases hpc' with h1 | h1 <;> rw [h1] at h0 <;> cases h0
+    · intro h0; apply hl.subp i; simpa [hi, h1t] using h0
+
+theorem expNews_noninst (b : Body) {tr : Trigger} (h : tr.isInst = false) (p : PC) : expNews b tr p = [] := by
+  cases tr <;> simp [Trigger.isInst] at h <;> rfl
+
+/-- Every step keeps the log invariant: the log of a thread is a function of where it is. -/
+theorem logInv_step {b : Body} {trig : Nat → Trigger} {c c' : Config} {l : Label} (h : Inv b trig c)
+    (hl : LogInv b trig c) (t : Nat) (hs : step b trig c t = some (c', l)) : LogInv b trig c' := by
+  have mid : ∀ (st : TState) (c' : Config), c'.threads = (c.setT t st).threads → c'.news = c.news → c'.args = c.args →
+      past st.pc = false → past (c.threads t).pc = false → st.pc ≠ .start → (c.threads t).pc ≠ .start →
+      st.pc ≠ .superNew → (c.threads t).pc ≠ .superNew →
+      (instOnly st.pc = true → (trig t).isInst = true) → LogInv b trig c' := by
+    intro st c' h1 h2 h3 h4 h5 h6 h7 h8 h9 h10
+    exact logInv_pcOnly hl t st h1 h2 h3 (expNews_mid b _ h4 h5 h6 h7) (expArgs_mid _ ⟨h6, h8⟩ ⟨h7, h9⟩) h10 h8
+  unfold step at hs
+  cases hpc : (c.threads t).pc with
+  | start =>
+    simp only [hpc] at hs
+    cases htr : trig t <;> simp only [htr] at hs <;> cases hs
+    · exact logInv_callNew h hl t _ rfl rfl (by rw [hl.args t, hpc, htr]; rfl) (fun _ _ => rfl) rfl
+        (by rw [hpc]; simp) (fun _ => htr) (by rw [htr]; rfl)
+    · refine logInv_pcOnly hl t _ rfl rfl rfl ?_ ?_ ?_ ?_
+      · rw [expNews_noninst b (by rw [htr]; rfl), expNews_noninst b (by rw [htr]; rfl)]
+      · rw [hpc, htr]; simp only []; split <;> rfl
+      · simp only []; split <;> simp [instOnly]
+      · simp only []; split <;> simp
+    · refine logInv_pcOnly hl t _ rfl rfl rfl ?_ ?_ ?_ ?_
+      · rw [expNews_noninst b (by rw [htr]; rfl), expNews_noninst b (by rw [htr]; rfl)]
+      · rw [hpc, htr]; simp only []; split <;> rfl
+      · simp only []; split <;> simp [instOnly]
+      · simp only []; split <;> simp
+    · rename_i f
+      have ha := hl.args t
+      have hn := hl.news t
+      rw [hpc, htr] at ha hn
+      constructor <;> intro i
+      · by_cases hi : i = t
+        · subst hi; simp [hn, ha, htr, expNews, expArgs, past]
+        · simp [hi]; exact hl.news i
+      · by_cases hi : i = t
+        · subst hi; simp [ha, expArgs]
+        · simp [hi]; exact hl.args i
+      · by_cases hi : i = t
+        · subst hi; simp [htr, Trigger.isInst]
+        · simp [hi]; exact hl.prog i
+      · by_cases hi : i = t
+        · subst hi; intro _; exact ⟨f, htr⟩
+        · intro h0; apply hl.subp i; simpa [hi] using h0
+  | superNew =>
+    simp only [hpc] at hs
+    cases hs
+    obtain ⟨f, htr⟩ := hl.subp t hpc
+    refine logInv_callNew h hl t _ rfl rfl ?_ (fun i hi => by simp [hi]) rfl (by rw [hpc]; simp)
+      (fun h0 => by rw [hpc] at h0; cases h0) (by rw [htr]; rfl)
+    simp [hl.args t, hpc, expArgs]
+  | dispatch =>
+    simp only [hpc] at hs
+    cases hs
+    exact logInv_callNew h hl t _ rfl rfl (by rw [hl.args t, hpc]; rfl) (fun _ _ => rfl) rfl (by rw [hpc]; simp)
+      (fun h0 => by rw [hpc] at h0; cases h0) (hl.prog t (by rw [hpc]; rfl))
+  | lookup =>
+    simp only [hpc] at hs
+    cases hs
+    have hp := hl.prog t (by rw [hpc]; rfl)
+    refine mid _ _ rfl rfl rfl ?_ ?_ ?_ ?_ ?_ ?_ ?_ <;> simp only [hpc] <;> (try split) <;> simp [past, instOnly, hp]
+  | acqB =>
+    simp only [hpc] at hs
+    split at hs <;> cases hs
+    refine mid _ _ rfl rfl rfl ?_ ?_ ?_ ?_ ?_ ?_ ?_ <;> simp [hpc, past, instOnly]
+  | recheck =>
+    simp only [hpc] at hs
+    split at hs <;> cases hs
+    · refine mid _ _ rfl rfl rfl ?_ ?_ ?_ ?_ ?_ ?_ ?_ <;> simp [hpc, past, instOnly]
+    · refine mid _ _ rfl rfl rfl ?_ ?_ ?_ ?_ ?_ ?_ ?_ <;> simp [hpc, past, instOnly]
+  | boot k =>
+    simp only [hpc] at hs
+    split at hs <;> cases hs
+    · refine mid _ _ rfl rfl rfl ?_ ?_ ?_ ?_ ?_ ?_ ?_ <;> simp [hpc, past, instOnly]
+    · refine mid _ _ rfl rfl rfl ?_ ?_ ?_ ?_ ?_ ?_ ?_ <;> simp only [hpc] <;> (try split) <;> simp [past, instOnly]
+  | relB =>
+    simp only [hpc] at hs
+    cases hs
+    refine mid _ _ rfl rfl rfl ?_ ?_ ?_ ?_ ?_ ?_ ?_ <;> simp [hpc, past, instOnly]
+  | reread =>
+    simp only [hpc] at hs
+    cases hs
+    cases hti : (trig t).isInst
+    · refine logInv_pcOnly hl t _ rfl rfl rfl ?_ ?_ ?_ ?_
+      · rw [expNews_noninst b hti, expNews_noninst b hti]
+      · simp [hpc, hti, expArgs]
+      · simp [hti, instOnly]
+      · simp [hti]
+    · refine mid _ _ rfl rfl rfl ?_ ?_ ?_ ?_ ?_ ?_ ?_ <;> simp [hpc, past, instOnly, hti]
+  | acqN =>
+    simp only [hpc] at hs
+    have hp := hl.prog t (by rw [hpc]; rfl)
+    split at hs <;> cases hs
+    refine mid _ _ rfl rfl rfl ?_ ?_ ?_ ?_ ?_ ?_ ?_ <;> simp [hpc, past, instOnly, hp]
+  | checkNew =>
+    simp only [hpc] at hs
+    cases hs
+    have hp := hl.prog t (by rw [hpc]; rfl)
+    refine mid _ _ rfl rfl rfl ?_ ?_ ?_ ?_ ?_ ?_ ?_ <;> simp only [hpc] <;> (try split) <;> simp [past, instOnly, hp]
+  | swapNew =>
+    simp only [hpc] at hs
+    cases hs
+    have hp := hl.prog t (by rw [hpc]; rfl)
+    refine mid _ _ rfl rfl rfl ?_ ?_ ?_ ?_ ?_ ?_ ?_ <;> simp [hpc, past, instOnly, hp]
+  | relN =>
+    simp only [hpc] at hs
+    cases hs
+    have hp := hl.prog t (by rw [hpc]; rfl)
+    refine mid _ _ rfl rfl rfl ?_ ?_ ?_ ?_ ?_ ?_ ?_ <;> simp [hpc, past, instOnly, hp]
+  | observe =>
+    simp only [hpc] at hs
+    cases hs
+    refine logInv_pcOnly hl t _ rfl rfl rfl ?_ ?_ ?_ ?_
+    · rw [hpc]; cases trig t <;> simp [expNews, past]
+    · rw [hpc]; rfl
+    · simp [instOnly]
+    · simp
+  | done =>
+    simp only [hpc] at hs
+    cases hs
 
 end SpecVerif.C19
